@@ -294,18 +294,20 @@ def conf (g : InCfg) : Step → List RUnit → Step
 
 /-! ### a connection that ends: the unfinished last unit -/
 
-/-- the data blocks of an unfinished transfer: complete blocks, then a cut one (or nothing) -/
+/-- the data blocks of an unfinished transfer: complete blocks, then a cut one, or nothing, or the EOT whose
+checksum byte never arrived -/
 def cutBlocks : Nat → Bytes → Bool
   | 0, _ => false
   | _ + 1, [] => true
   | _ + 1, [2] => true
+  | _ + 1, [4] => true
   | f + 1, 2 :: l :: d =>
     let n := if l = 0 then 256 else l.toNat
     if d.length < n then true else cutBlocks f (d.drop n)
   | _ + 1, _ => false
 
-/-- an unfinished transfer: SOH, length, title, NUL, "0", NUL, blocks — cut anywhere EXCEPT between the EOT
-and its checksum byte (see `Props/C05_accept.lean: cut_after_eot_is_reported_as_checksum_error`) -/
+/-- an unfinished transfer: SOH, length, title, NUL, "0", NUL, blocks, EOT — cut ANYWHERE, the cut between the
+EOT and its checksum byte included (see `Props/C05_accept.lean: cut_after_eot_is_connection_lost`) -/
 def cutFrame (tail : Bytes) : Bool :=
   match tail with
   | [] => true
